@@ -70,8 +70,9 @@ def main():
                 common.machinery_failure('no replayed cursor step ended with %s' % need)
         if plan:
             ck.sample(dict(kind='iterator job', build=flavour, job={k: v for k, v in plan[0].items() if k != 'dump'}))
-    ck.assumptions += ['C outcomes are predicted exactly (BTreeIter_next / BTreeItems_seek transcriptions); the Python generators are '
-                       'checked against the property (an entry, StopIteration, RuntimeError or IndexError; structure and contents as specified), not predicted step by step',
+    ck.assumptions += ['outcomes are predicted exactly for both implementations: C by the BTreeIter_next / BTreeItems_seek transcriptions (cur/out), '
+                       'Python by the transcription of _TreeItems (its generator, the per-leaf generator expressions over the live lists, the cached '
+                       'length and the cached last entry: pcur/pout)',
                        'iter() of a TreeSet range view goes through the generic sequence iterator']
     ck.finish(exhaustive=False)
 
